@@ -75,6 +75,10 @@ func (r *settleRun) acct(p string) int64 {
 
 // update performs proposal -> (delivery) -> answer -> (delivery) with explicit control.
 func (r *settleRun) startUpdate(p string, amt int, final bool) chan error {
+	return r.startUpdateCtx(r.ctx, p, amt, final)
+}
+
+func (r *settleRun) startUpdateCtx(ctx context.Context, p string, amt int, final bool) chan error {
 	done := make(chan error, 1)
 	ch := r.chs[p]
 	me := 0
@@ -82,7 +86,7 @@ func (r *settleRun) startUpdate(p string, amt int, final bool) chan error {
 		me = 1
 	}
 	go func() {
-		done <- ch.Update(r.ctx, func(s *channel.State) {
+		done <- ch.Update(ctx, func(s *channel.State) {
 			s.Balances[0][me].Sub(s.Balances[0][me], big.NewInt(int64(amt)))
 			s.Balances[0][1-me].Add(s.Balances[0][1-me], big.NewInt(int64(amt)))
 			s.IsFinal = final
@@ -102,13 +106,17 @@ func (r *settleRun) deliverOne(t string) bool {
 }
 
 func (r *settleRun) answer(p string, accept bool) bool {
+	return r.answerCtx(context.Background(), p, accept)
+}
+
+func (r *settleRun) answerCtx(ctx context.Context, p string, accept bool) bool {
 	u := r.party[p].TakeUpdateFor(r.id)
 	if u == nil {
 		return false
 	}
 	go func() {
 		if accept {
-			_ = u.Resp.Accept(context.Background())
+			_ = u.Resp.Accept(ctx)
 		} else {
 			_ = u.Resp.Reject(context.Background(), "no")
 		}
@@ -203,6 +211,37 @@ func runSettleBehaviour(t *testing.T, res *drv.Result, cfg settleCfg, steps []wS
 					}
 				default:
 					viol("conformance", "update-hangs|"+a.Name, a.Label+": the update did not complete", k+1)
+					return
+				}
+			case "PayCut":
+				// the contexts of Update (proposer) and Accept (responder) end when the new state is enabled at that client:
+				// the persister call is the gate (go-perun persists right after the machine operation, before it goes on)
+				p := a.Args[0].(string)
+				ctxs, cancels := map[string]context.Context{}, map[string]context.CancelFunc{}
+				for _, q := range []string{"A", "B"} {
+					ctxs[q], cancels[q] = context.WithCancel(ctx)
+				}
+				w.OnPersist = func(who, kind string, id channel.ID) {
+					if kind == "enabled" && id == r.id {
+						cancels[who]()
+					}
+				}
+				done := r.startUpdateCtx(ctxs[p], p, a.Args[1].(int), false)
+				w.Quiesce()
+				ok := r.deliverOne("upd") && r.answerCtx(ctxs[peerOf(p)], peerOf(p), true)
+				ok = ok && r.deliverOne("acc")
+				w.Quiesce()
+				w.OnPersist = nil
+				cancels["A"]()
+				cancels["B"]()
+				select {
+				case <-done: // whatever the call returns: the state is enabled at both clients (checked against the model below)
+				default:
+					viol("conformance", "update-hangs|PayCut", a.Label+": the update did not complete", k+1)
+					return
+				}
+				if !ok {
+					viol("conformance", "paycut", a.Label+": the update could not be delivered and accepted", k+1)
 					return
 				}
 			case "Propose":
